@@ -63,6 +63,8 @@ pub fn packet_kinds() -> Vec<(&'static str, Vec<u8>)> {
         // handshake segments that carry data (TCP Fast Open style): the start of a ClientHello that continues in the next segment
         ("syn-with-partial-clienthello", c2s(SYN, 1000, &hello[..60], Some(100_000), true)),
         ("synack-with-partial-clienthello", s2c(SYN | ACK, 5000, &hello[..60], Some(7_000_000), true)),
+        // a second (pipelined) response of the same server stream: when it arrives before the first one it lies behind a gap
+        ("http-second-response", s2c(ACK | PSH, 5001 + resp.len() as u32, b"HTTP/1.1 404 Not Found\r\nServer: nginx/1.2.3\r\nContent-Length: 0\r\n\r\n", Some(7_002_000), false)),
         ("fragment", pkt::build(&frag)),
         // datagrams with the more-fragments bit / a fragment offset that carry a complete ClientHello or request: the TCP
         // analyzer refuses them, the HTTP and TLS analyzers do not
@@ -314,7 +316,7 @@ pub fn run(thorough: bool) -> Outcome {
     });
     Outcome {
         report: rep,
-        rule: "every trace of <= 4 packets (5 thorough) over 18 packet kinds (SYN/SYN+ACK/ACK with timestamps, HTTP request, HTTP response, ClientHello whole and in two parts, FIN+RST, no flags, IPv4 fragment, UDP, truncated frame, Ethernet-framed IPv6 SYN) x 16 switch combinations x with/without database, unified analyzer vs stand-alone TCP / HTTP / stateless TLS processors in lock step under the injected clock; distinct = distinct unified outcomes".into(),
+        rule: "every trace of <= 4 packets (5 thorough) over 19 packet kinds (SYN/SYN+ACK/ACK with timestamps, HTTP request, HTTP response, ClientHello whole and in two parts, FIN+RST, no flags, IPv4 fragment, UDP, truncated frame, Ethernet-framed IPv6 SYN) x 16 switch combinations x with/without database, unified analyzer vs stand-alone TCP / HTTP / stateless TLS processors in lock step under the injected clock; distinct = distinct unified outcomes".into(),
         exhaustive: true,
         bounds: json!({"traces": traces.len(), "configurations": cfgs.len(), "max_depth": depth}),
     }
